@@ -110,7 +110,9 @@ func (w *c10World) do(client int, kind string, deadline time.Duration) c10Op {
 		op.Err = "PANIC: " + o.PanicMsg
 	case o.Err != nil:
 		op.Err = o.Err.Error()
-		if kind == "deref" && strings.Contains(op.Err, "timeout while dereferencing future") {
+		// a timeout error obtained after the caller's own deadline has passed is the caller's, not the future's outcome
+		// (EVAL may notice the deadline before or inside the deref builtin, with different messages)
+		if kind == "deref" && (strings.Contains(op.Err, "timeout while dereferencing future") || (ctx.Err() != nil && strings.Contains(op.Err, "timeout while"))) {
 			op.TimedOut = true
 		}
 	default:
